@@ -29,6 +29,7 @@ type poolEntry struct {
 	pool  uintptr
 	obj   any
 	owner uint32
+	slot  uint32 // happens-before slot of this Put (assigned in Put order: independent of addresses)
 }
 
 // The free list holds Go pointers and therefore lives in the Go heap. It is only touched
@@ -42,6 +43,7 @@ var (
 	poolCfg                        PoolConfig
 	poolOn                         uint32
 	poolRng                        uint64
+	poolPuts                       uint32
 )
 
 //go:norace
@@ -50,6 +52,7 @@ func poolBegin(c PoolConfig) {
 		poolList[i] = poolEntry{}
 	}
 	poolLen = 0
+	poolPuts = 0
 	poolCross, poolFresh, poolSame = 0, 0, 0
 	poolCfg = c
 	if c.Policy != PoolReal {
@@ -102,7 +105,7 @@ func PoolDropAll() {
 }
 
 //go:norace
-func poolTake(p uintptr, me uint32, decision int) (any, bool) {
+func poolTake(p uintptr, me uint32, decision int) (any, uint32, bool) {
 	idx := -1
 	if decision == 2 {
 		for i := poolLen - 1; i >= 0; i-- {
@@ -122,7 +125,7 @@ func poolTake(p uintptr, me uint32, decision int) (any, bool) {
 	}
 	if idx < 0 {
 		poolFresh++
-		return nil, false
+		return nil, 0, false
 	}
 	e := poolList[idx]
 	if e.owner != me {
@@ -135,25 +138,28 @@ func poolTake(p uintptr, me uint32, decision int) (any, bool) {
 	}
 	poolLen--
 	poolList[poolLen] = poolEntry{}
-	return e.obj, true
+	return e.obj, e.slot, true
 }
 
 //go:norace
-func poolGive(p uintptr, me uint32, x any) {
+func poolGive(p uintptr, me uint32, x any, slot uint32) {
 	if poolLen == poolCap { // a pool may drop objects
 		for i := 0; i < poolLen-1; i++ {
 			poolList[i] = poolList[i+1]
 		}
 		poolLen--
 	}
-	poolList[poolLen] = poolEntry{pool: p, obj: x, owner: me}
+	poolList[poolLen] = poolEntry{pool: p, obj: x, owner: me, slot: slot}
 	poolLen++
 }
 
-func objSlot(x any) *uint32 {
-	type iface struct{ t, d unsafe.Pointer }
-	p := uintptr((*iface)(unsafe.Pointer(&x)).d)
-	return &poolSync[(p>>4)%128]
+// nextPutSlot hands out the happens-before slots in Put order, so that which Puts share a slot
+// (and thereby over-approximate happens-before, exactly like sync.Pool's own race modelling
+// does) is a function of the run and not of heap addresses.
+//go:norace
+func nextPutSlot() uint32 {
+	poolPuts++
+	return poolPuts % 128
 }
 
 //go:norace
@@ -201,14 +207,14 @@ func PoolGet(p *sync.Pool, site string) any {
 		yield(kPoolGet, uint64(uintptr(unsafe.Pointer(p))), siteHash(site), 0)
 		me = atomic.LoadUint32(&w.cur)
 	}
-	x, ok := poolTake(uintptr(unsafe.Pointer(p)), me, poolDecision(site))
+	x, slot, ok := poolTake(uintptr(unsafe.Pointer(p)), me, poolDecision(site))
 	if !ok {
 		if p.New == nil {
 			return nil
 		}
 		return p.New()
 	}
-	atomic.LoadUint32(objSlot(x)) // acquire: pairs with the release in PoolPut
+	atomic.LoadUint32(&poolSync[slot]) // acquire: pairs with the release in PoolPut
 	return x
 }
 
@@ -220,12 +226,13 @@ func PoolPut(p *sync.Pool, x any, site string) {
 	if x == nil {
 		return
 	}
-	atomic.AddUint32(objSlot(x), 1) // release
+	slot := nextPutSlot()
+	atomic.AddUint32(&poolSync[slot], 1) // release
 	me := uint32(0)
 	if Active() {
 		me = atomic.LoadUint32(&w.cur)
 	}
-	poolGive(uintptr(unsafe.Pointer(p)), me, x)
+	poolGive(uintptr(unsafe.Pointer(p)), me, x, slot)
 	if Active() {
 		yield(kPoolPut, uint64(uintptr(unsafe.Pointer(p))), siteHash(site), 0)
 	}
